@@ -1,89 +1,121 @@
 import ScyllaVerif.Model.Carrier
 /-
-Helper lemmas for C17: the per-page type check of the pager's typed stream.
+Helper lemmas for C17: the per-page type check of the pager's typed stream equals its specification
+(`streamSpec`: one item per announced row, the row itself iff readable and its page's own columns pass).
 -/
 namespace ScyllaVerif.Proofs.PagerStream
 open ScyllaVerif.Cql ScyllaVerif.Carrier
 
-/-- `o` is a legitimate output about page `i` whose columns pass / fail the check: a row only if they pass,
-a type-check error only if they fail. -/
-def OutOk (ok : Bool) (i : Nat) (o : StreamOut) : Prop :=
-  (o = .row i ∧ ok = true) ∨ (o = .typeErr i ∧ ok = false)
+theorem cons_fst (c : StreamOut) (x : List StreamOut × Bool) :
+    (match x with | (os, r) => (c :: os, r)).1 = c :: x.1 := by cases x; rfl
 
-/-- The rows of one page: provided the page is fresh, or the flag is unset, or the page is known to pass —
-also for the rows polled AFTER a refused row (the flag stays unset, so they are checked, and refused, again). -/
-theorem pageRows_ok (ok : Bool) (i : Nat) : ∀ (n : Nat) (fresh flag : Bool),
-    (fresh = true ∨ flag = false ∨ ok = true) → ∀ o, o ∈ (pageRows ok i n fresh flag).1 → OutOk ok i o := by
-  intro n
-  induction n with
-  | zero => intro fresh flag _ o ho; simp [pageRows] at ho
-  | succ n ih =>
-    intro fresh flag h o ho
-    rw [pageRows] at ho
-    cases hs : streamRow ok fresh flag with
+theorem sticky_tail : ∀ (b : Bool) (rs : List Bool), stickyRaws (b :: rs) = true → stickyRaws rs = true
+  | true, rs, h => h
+  | false, rs, h => by
+    simp only [stickyRaws] at h
+    induction rs with
+    | nil => rfl
+    | cons r rs ih =>
+      simp only [List.all_cons, Bool.and_eq_true, beq_iff_eq] at h
+      obtain ⟨hr, hrs⟩ := h
+      subst hr
+      simpa [stickyRaws] using hrs
+
+/-- After an unreadable row only unreadable rows follow: nothing is decoded, whatever the flag says. -/
+theorem pageRows_all_bad (ok : Bool) (i : Nat) : ∀ (rs : List Bool) (fresh flag : Bool), rs.all (· == false) = true →
+    (pageRows ok i rs fresh flag).1 = rs.map (itemOf ok i)
+  | [], _, _, _ => rfl
+  | r :: rs, fresh, flag, h => by
+    simp only [List.all_cons, Bool.and_eq_true, beq_iff_eq] at h
+    obtain ⟨hr, hrs⟩ := h
+    subst hr
+    rw [pageRows, cons_fst, pageRows_all_bad ok i rs false flag hrs]
+    simp [itemOf]
+
+/-- The rows of one page equal the specification — provided the page is fresh, or the flag is unset, or the page
+is known to pass, and the raw iterator is sticky. -/
+theorem pageRows_spec (ok : Bool) (i : Nat) : ∀ (rs : List Bool) (fresh flag : Bool), stickyRaws rs = true →
+    (fresh = true ∨ flag = false ∨ ok = true) → (pageRows ok i rs fresh flag).1 = rs.map (itemOf ok i)
+  | [], _, _, _, _ => rfl
+  | false :: rs, fresh, flag, hs, _ => by
+    have hall : rs.all (· == false) = true := by simpa [stickyRaws] using hs
+    exact pageRows_all_bad ok i (false :: rs) fresh flag (by simp only [List.all_cons, hall]; rfl)
+  | true :: rs, fresh, flag, hs, h => by
+    have hs' : stickyRaws rs = true := by simpa [stickyRaws] using hs
+    rw [pageRows]
+    cases hsr : streamRow ok fresh flag with
     | mk flag' err =>
-      rw [hs] at ho
       cases err with
       | true =>
         have hbad : ok = false ∧ flag' = false := by
-          cases ok <;> cases fresh <;> cases flag <;> simp [streamRow] at hs ⊢ <;> simp_all
-        simp only at ho
-        rcases List.mem_cons.mp ho with rfl | hmem
-        · exact .inr ⟨rfl, hbad.1⟩
-        · exact ih false flag' (.inr (.inl hbad.2)) o hmem
+          cases ok <;> cases fresh <;> cases flag <;> simp [streamRow] at hsr ⊢ <;> simp_all
+        have ih := pageRows_spec ok i rs false flag' hs' (.inr (.inl hbad.2))
+        simp only [cons_fst, ih]
+        simp [itemOf, hbad.1]
       | false =>
         have hok : ok = true := by
           rcases h with h | h | h
-          · subst h; cases ok <;> cases flag <;> simp [streamRow] at hs ⊢
-          · subst h; cases ok <;> cases fresh <;> simp [streamRow] at hs ⊢
+          · subst h; cases ok <;> cases flag <;> simp [streamRow] at hsr ⊢
+          · subst h; cases ok <;> cases fresh <;> simp [streamRow] at hsr ⊢
           · exact h
-        simp only at ho
-        rcases List.mem_cons.mp ho with rfl | hmem
-        · exact .inl ⟨rfl, hok⟩
-        · exact ih false flag' (.inr (.inr hok)) o hmem
+        have ih := pageRows_spec ok i rs false flag' hs' (.inr (.inr hok))
+        simp only [cons_fst, ih]
+        simp [itemOf, hok]
 
-/-- Every output of the later pages is about one of them, and legitimate for it. -/
-theorem streamPages_ok (check : List (String × CqlTy) → Bool) : ∀ (ps : List PageM) (i : Nat) (flag : Bool) (o : StreamOut),
-    o ∈ streamPages check i ps flag → ∃ k p, ps[k]? = some p ∧ OutOk (check p.specs) (i + k) o := by
-  intro ps
-  induction ps with
-  | nil => intro i flag o ho; simp [streamPages] at ho
-  | cons p ps ih =>
-    intro i flag o ho
-    rw [streamPages] at ho
-    split at ho
-    · obtain ⟨k, q, hq, hok⟩ := ih (i + 1) flag o ho
-      exact ⟨k + 1, q, by simpa using hq, by rw [show i + (k + 1) = i + 1 + k by omega]; exact hok⟩
-    · have hrows := pageRows_ok (check p.specs) i p.rows true flag (.inl rfl)
-      cases hp : pageRows (check p.specs) i p.rows true flag with
+theorem streamPages_spec (check : List (String × CqlTy) → Bool) : ∀ (ps : List PageM) (i : Nat) (flag : Bool),
+    (∀ p, p ∈ ps → stickyRaws p.raws = true) → streamPages check i ps flag = streamSpec check i ps
+  | [], _, _, _ => rfl
+  | p :: ps, i, flag, hs => by
+    rw [streamPages, streamSpec]
+    have hps : ∀ q, q ∈ ps → stickyRaws q.raws = true := fun q hq => hs q (by simp [hq])
+    split
+    · rename_i he
+      have : p.raws = [] := by simpa using he
+      simp [this, streamPages_spec check ps (i + 1) flag hps]
+    · have hrows := pageRows_spec (check p.specs) i p.raws true flag (hs p (by simp)) (.inl rfl)
+      cases hp : pageRows (check p.specs) i p.raws true flag with
       | mk os flag' =>
-        rw [hp] at ho hrows
-        simp only at ho
-        rcases List.mem_append.mp ho with h | h
-        · exact ⟨0, p, rfl, hrows o h⟩
-        · obtain ⟨k, q, hq, hok⟩ := ih (i + 1) flag' o h
-          exact ⟨k + 1, q, by simpa using hq, by rw [show i + (k + 1) = i + 1 + k by omega]; exact hok⟩
+        rw [hp] at hrows
+        simp only at hrows ⊢
+        rw [hrows, streamPages_spec check ps (i + 1) flag' hps]
 
-theorem typedStream_ok (check : List (String × CqlTy) → Bool) (pages : List PageM) (outs : List StreamOut)
-    (h : typedStream check pages = some outs) (o : StreamOut) (ho : o ∈ outs) :
-    ∃ k p, pages[k]? = some p ∧ OutOk (check p.specs) k o := by
+/-- **The typed stream IS its specification.** -/
+theorem typedStream_spec (check : List (String × CqlTy) → Bool) (pages : List PageM) (outs : List StreamOut)
+    (hs : ∀ p, p ∈ pages → stickyRaws p.raws = true) (h : typedStream check pages = some outs) :
+    outs = streamSpec check 0 pages := by
   cases pages with
-  | nil => simp [typedStream] at h; subst h; simp at ho
+  | nil => simp [typedStream] at h; subst h; rfl
   | cons p ps =>
     rw [typedStream] at h
     split at h
     · cases h
     · rename_i hc
       have hpass : check p.specs = true := by simpa using hc
-      have hrows := pageRows_ok (check p.specs) 0 p.rows false true (.inr (.inr hpass))
-      cases hp : pageRows (check p.specs) 0 p.rows false true with
+      have hrows := pageRows_spec (check p.specs) 0 p.raws false true (hs p (by simp)) (.inr (.inr hpass))
+      cases hp : pageRows (check p.specs) 0 p.raws false true with
       | mk os flag =>
         rw [hp] at h hrows
-        simp only [Option.some.injEq] at h; subst h
-        rcases List.mem_append.mp ho with h1 | h1
-        · exact ⟨0, p, rfl, hrows o h1⟩
-        · obtain ⟨k, q, hq, hok⟩ := streamPages_ok check ps 1 flag o h1
-          exact ⟨k + 1, q, by simpa using hq, by rw [show k + 1 = 1 + k by omega]; exact hok⟩
+        simp only [Option.some.injEq] at h
+        subst h
+        simp only at hrows
+        rw [streamSpec, hrows, streamPages_spec check ps 1 flag (fun q hq => hs q (by simp [hq]))]
+
+theorem streamSpec_length (check : List (String × CqlTy) → Bool) : ∀ (ps : List PageM) (i : Nat),
+    (streamSpec check i ps).length = (ps.map PageM.rows).sum
+  | [], _ => rfl
+  | p :: ps, i => by simp [streamSpec, streamSpec_length check ps (i + 1), PageM.rows]
+
+/-- Membership in the specification: an item about page `k` stems from page `k`'s rows. -/
+theorem streamSpec_mem (check : List (String × CqlTy) → Bool) : ∀ (ps : List PageM) (i : Nat) (o : StreamOut),
+    o ∈ streamSpec check i ps → ∃ k p b, ps[k]? = some p ∧ b ∈ p.raws ∧ o = itemOf (check p.specs) (i + k) b
+  | [], _, o, h => by simp [streamSpec] at h
+  | p :: ps, i, o, h => by
+    rw [streamSpec] at h
+    rcases List.mem_append.mp h with h | h
+    · obtain ⟨b, hb, rfl⟩ := List.mem_map.mp h
+      exact ⟨0, p, b, rfl, hb, rfl⟩
+    · obtain ⟨k, q, b, hq, hb, ho⟩ := streamSpec_mem check ps (i + 1) o h
+      exact ⟨k + 1, q, b, by simpa using hq, hb, by rw [ho, show i + (k + 1) = i + 1 + k by omega]⟩
 
 /-- A stop-at-first-error consumer sees a prefix of the polled-to-the-end items. -/
 theorem untilFirstError_mem : ∀ (l : List StreamOut) (o : StreamOut), o ∈ untilFirstError l → o ∈ l
@@ -94,6 +126,9 @@ theorem untilFirstError_mem : ∀ (l : List StreamOut) (o : StreamOut), o ∈ un
     · simp
     · exact List.mem_cons_of_mem _ (untilFirstError_mem r o h)
   | .typeErr i :: r, o, h => by
+    simp only [untilFirstError, List.mem_singleton] at h
+    subst h; simp
+  | .rawErr i :: r, o, h => by
     simp only [untilFirstError, List.mem_singleton] at h
     subst h; simp
 
